@@ -300,5 +300,70 @@ class SelectStream(Stream):
             yield dict(case, req=r.name)
 
 
+class CliOnlyBinary(Stream):
+    """the binary-only set as it is threaded from the command line (`--only-binary a,b` / `:all:`): a project whose newest
+    release is a source distribution and whose best wheel is older; the project is named in any spelling"""
+    name = "cli-only-binary"
+    quick_n = 40
+    thorough_n = 1500
+    batch = 10
+    parallel_quick = 4
+
+    NAMES = ["foo-bar", "zope.thing", "Pillow", "six", "my_lib"]
+
+    def setup(self):
+        import tempfile
+        self.tmp = tempfile.mkdtemp(prefix="rvc03cli")
+
+    def teardown(self):
+        import shutil
+        shutil.rmtree(getattr(self, "tmp", ""), ignore_errors=True)
+
+    @staticmethod
+    def _spell(rng, n):
+        return "".join((rng.choice("-_.") if ch in "-_." else (ch.swapcase() if ch.isalpha() and rng.random() < 0.3 else ch)) for ch in n)
+
+    def generate(self, rng):
+        name = rng.choice(self.NAMES)
+        other = rng.choice([n for n in self.NAMES if n != name])
+        mode = rng.choice(["named", "named", "named", "all", "none", "other-project"])
+        arg = {"named": self._spell(rng, name), "all": ":all:", "none": None, "other-project": self._spell(rng, other)}[mode]
+        if mode == "named" and rng.random() < 0.4:
+            arg = arg + "," + self._spell(rng, other) if rng.random() < 0.5 else self._spell(rng, other) + "," + arg
+        return {"name": name, "mode": mode, "only_binary": arg, "request": self._spell(rng, name)}
+
+    def impl(self, case):
+        import os
+        import shutil
+        from rv.core import digest
+        from rv import backends as B, graphlib as GL
+        from rv.props.c07 import run_inproc, sdist_bytes
+        GL.reset_caches()
+        d = os.path.join(self.tmp, digest(case))
+        shutil.rmtree(d, ignore_errors=True)
+        os.makedirs(d)
+        n = case["name"]
+        B.write_findlinks(os.path.join(d, "links"), {B.wheel_name(n, "1.0"): B.wheel_bytes(n, "1.0"),
+                                                     "%s-2.0.tar.gz" % n.replace("-", "_"): sdist_bytes(n, "2.0", [])})
+        with open(os.path.join(d, "in0.txt"), "w") as f:
+            f.write(case["request"] + "\n")
+        extra = ["--only-binary", case["only_binary"]] if case["only_binary"] else []
+        r = run_inproc(d, ["in0.txt"], extra=extra)
+        shutil.rmtree(d, ignore_errors=True)
+        import re
+        m = re.search(r"^[A-Za-z0-9._-]+==(\S+)", r["stdout"], re.M)
+        return {"code": r["code"], "pin": m.group(1) if m else None}
+
+    def flags(self, case, r):
+        return ["only-binary:" + case["mode"], "pin:%s" % r["pin"]]
+
+    def oracle(self, case, r):
+        want = "1.0" if case["mode"] in ("named", "all") else "2.0"
+        if r["code"] != 0 or r["pin"] != want:
+            sym = "sdist-for-binary-only-project" if want == "1.0" else "wheel-forced-on-project-not-marked"
+            return [("C03/cli-%s" % sym, {"only_binary": case["only_binary"], "request": case["request"], "pin": r["pin"], "exit": r["code"]})]
+        return []
+
+
 def streams():
-    return [SelectStream()]
+    return [SelectStream(), CliOnlyBinary()]
